@@ -261,7 +261,7 @@ impl Prop for C10 {
         json!({"idx": idx, "block": c.block, "direct": c.direct, "pdus": brief, "forms": c.pdus.iter().map(|p| (p.long_form, p.first_byte)).collect::<Vec<_>>()})
     }
     fn rule(&self) -> String {
-        "cases = sequences of fast-path output PDUs delivered to a really activated client (raw stack) through RdpClient::read; PDUs of 0..3 updates over an alphabet of 19 updates (bitmap updates with 0,1,2,3 rectangles, with/without compression header, and 13 non-bitmap/unknown update codes); sequences of <=2 (<=3) PDUs, delivered one frame at a time (lock step) and all at once in one segment before the first read (both length forms, so that an empty PDU of either form is followed by more PDUs); every rectangle field at {0,1,0x7FFF,0xFFFF} one at a time and all-max, depths x flag combinations x data lengths {0,1,2,255,256}, short and long length forms, reserved header bits; every non-bitmap update code carrying a body that is a valid bitmap update payload; short-form PDUs of 120..127 bytes; long-form PDUs whose total length is k*256-1..k*256+3 (k=1..8) and around 4 KiB / 16 KiB / the 15-bit limit; 1023..3000 rectangles in one update and 1023..5000 updates in one PDU; data lengths up to the 15-bit frame limit and beyond it (0x7FFF..0xFFEC) through global::Client::read directly. Oracle: callback sequence == reference parser's rectangle list (count, order, nine fields, data). Non-trivial: >= 2 updates in total or a non-default field. The cases whose frames sit in one segment are delivered whole or 1, 3 or 7 bytes per read call (by case index).".into()
+        "cases = sequences of fast-path output PDUs delivered to a really activated client (raw stack) through RdpClient::read; PDUs of 0..3 updates over an alphabet of 19 updates (bitmap updates with 0,1,2,3 rectangles, with/without compression header, and 13 non-bitmap/unknown update codes); sequences of <=2 (<=3) PDUs, delivered one frame at a time (lock step) and all at once in one segment before the first read (both length forms, so that an empty PDU of either form is followed by more PDUs); every rectangle field at {0,1,0x7FFF,0xFFFF} one at a time and all-max, depths x flag combinations x data lengths {0,1,2,255,256}, short and long length forms, reserved header bits; every non-bitmap update code carrying a body that is a valid bitmap update payload; short-form PDUs of 120..127 bytes; long-form PDUs whose total length is k*256-1..k*256+3 (k=1..8) and around 4 KiB / 16 KiB / the 15-bit limit; 1023..3000 rectangles in one update and 1023..5000 updates in one PDU; data lengths up to the 15-bit frame limit and beyond it (0x7FFF..0xFFEC) through global::Client::read directly. Oracle: callback sequence == reference parser's rectangle list (count, order, nine fields, data). Non-trivial: >= 2 updates in total or a non-default field. The cases whose frames sit in one segment are delivered whole or 1, 3 or 7 bytes per read call (by case index). In every third multi-PDU case the application polls between two PDUs while nothing is pending and the transport answers WouldBlock / TimedOut: the later PDUs are delivered all the same.".into()
     }
     fn assumptions(&self) -> Vec<String> {
         vec!["scope as in the statement: unfragmented, uncompressed updates (fragmentation and compression bits of the update header are 0); numberRectangles consistent with the rectangles present".into()]
@@ -318,6 +318,17 @@ impl Prop for C10 {
                 let long = p.long_form || payload.len() + 2 > 0x7f;
                 let frame = framing::fastpath(p.first_byte, &payload, long);
                 if !c.coalesced {
+                    // in every third such case the application polls once while nothing is pending (a socket with a read
+                    // timeout / a non-blocking socket answers TimedOut / WouldBlock before any byte): the poll fails,
+                    // nothing is consumed, and the PDUs that arrive afterwards are delivered as usual
+                    if pi > 0 && idx % 3 == 1 {
+                        conn.sh.borrow_mut().err_when_empty = Some(if pi % 2 == 1 { std::io::ErrorKind::WouldBlock } else { std::io::ErrorKind::TimedOut });
+                        let polled = client.read(|_| {});
+                        conn.sh.borrow_mut().err_when_empty = None;
+                        if polled.is_ok() {
+                            return Outcome::fail("mismatch", "idle-poll-returned-ok", "read returned Ok although no byte was pending".to_string());
+                        }
+                    }
                     conn.sh.borrow_mut().push_to_client(&frame);
                 }
                 client.read(&mut cb)
